@@ -48,3 +48,35 @@ def cs(cxx_type, prefix='S_'):
     """C struct tag the emitter gives to a C++ record type spelling"""
     from vlib.emit import struct_tag
     return struct_tag(cxx_type, prefix)
+
+HOST_SIZE = {'bool': 1, 'char': 1, 'signed char': 1, 'unsigned char': 1, 'short': 2, 'unsigned short': 2,
+             'int': 4, 'unsigned int': 4, 'long': 8, 'unsigned long': 8, 'long long': 8, 'unsigned long long': 8,
+             'float': 4, 'double': 8, 'char16_t': 2, 'char32_t': 4, 'wchar_t': 4, 'pointer': 8}
+
+
+def elem_size(t, guest):
+    tab = GUEST_SIZE if guest else HOST_SIZE
+    if t.endswith('*'):
+        return tab['pointer']
+    return tab[t]
+
+
+PRE_GHOST = '_Bool g_noabort; _Bool g_backend_nonnull;'
+
+
+def idx_value(kind, idx, arg):
+    """C expression (mathint) of an index operand passed by pointer `arg` with the given wrapper kind"""
+    if kind == 'plain':
+        return 'MI(*%s)' % arg
+    w = 'tainted' if kind == 'tainted' else 'tainted_volatile'
+    return 'MI(((const struct %s *)%s)->data)' % (cs('rlbox::%s<%s, rlbox::vsbx>' % (w, idx)), arg)
+
+
+def idx_decl(kind, idx, var='n'):
+    """(harness declaration text, snippet parameter text)"""
+    c = CXX_INTS[idx][0]
+    if kind == 'plain':
+        return '  %s %s; %s in_%s = %s;\n' % (c, var, c, var, var), '%s %s' % (idx, var)
+    w = 'tainted' if kind == 'tainted' else 'tainted_volatile'
+    st = cs('rlbox::%s<%s, rlbox::vsbx>' % (w, idx))
+    return '  struct %s %s; long long in_%s = %s.data;\n' % (st, var, var, var), '%s<%s, vsbx>& %s' % (w, idx, var)
